@@ -338,12 +338,34 @@ def main():
     drv = pyl.PyDriver(os.path.join(coq, "extract", "pydriver"))
     cmds, impls, who = [], [], []
     import copy
+    import signal
+
+    class Slow(BaseException):
+        pass
+
+    def on_alarm(signum, frame):
+        raise Slow()
+
+    signal.signal(signal.SIGALRM, on_alarm)
+    slow = 0
     for i in range(a.funcs):
         fn = getattr(mod, "f%d" % i)
         for _ in range(a.inputs):
             args = rand_args(rng)
+            # programs whose values explode (lists doubled in nested loops) are skipped on both sides
+            signal.setitimer(signal.ITIMER_REAL, 1.0)
+            try:
+                r = pyl.impl_result(fn, *copy.deepcopy(args))
+            except Slow:
+                slow += 1
+                continue
+            finally:
+                signal.setitimer(signal.ITIMER_REAL, 0)
+            if len(r) > 20000:
+                slow += 1
+                continue
             cmds.append(pyl.fn_cmd("f%d" % i, args, fuel=60))
-            impls.append(pyl.impl_result(fn, *copy.deepcopy(args)))
+            impls.append(r)
             who.append((i, args))
     outs = drv.ask(cmds)
     bad, stats = 0, {}
@@ -356,8 +378,8 @@ def main():
             bad += 1
             if bad <= 5:
                 print("DISAGREEMENT f%d%r\n  cpython:     %s\n  interpreter: %s" % (w[0], tuple(w[1]), im[:300], o[:300]))
-    print("pylite-fuzz seed=%d functions=%d runs=%d disagreements=%d unsupported-functions=%d" % (
-        a.seed, a.funcs, len(cmds), bad, len(unsupported)))
+    print("pylite-fuzz seed=%d functions=%d runs=%d disagreements=%d unsupported-functions=%d skipped-slow=%d" % (
+        a.seed, a.funcs, len(cmds), bad, len(unsupported), slow))
     print("outcomes:", dict(sorted(stats.items(), key=lambda kv: -kv[1])[:12]))
     if bad == 0:
         shutil.rmtree(work, ignore_errors=True)
